@@ -449,7 +449,14 @@ class tridonic(hid):
                 self._log.debug(f"waiting for {outstanding_transmissions=} "
                                 "{response=}")
                 if len(messages) == 0:
-                    await event.wait()
+                    try:
+                        await event.wait()
+                    except asyncio.CancelledError:
+                        # We will never collect the reply: don't leave
+                        # our entry behind for the sequence number to
+                        # collide with after it wraps around
+                        self._outstanding.pop(seq, None)
+                        raise
                     event.clear()
                 message = messages.pop(0)
                 if message == "fail":
